@@ -61,9 +61,11 @@ class Executor:
         Returns:
             Executor.
         """
+        # the whole call is validated before anything is changed: a rejected call leaves the sizes as they were
         for cell in cells:
             handle_cell(cell, self._titles)
 
+        for cell in cells:
             sheet = cell.title
             row = cell.row + 1
             column = cell.column + 1
